@@ -68,6 +68,6 @@ def main():
     }
     json.dump(m, open("/verif/MANIFEST.json", "w"), indent=1)
 
-HOOK_COMMITS = []
+HOOK_COMMITS = ["c3a3210"]
 if __name__ == "__main__":
     main()
